@@ -12,6 +12,19 @@ import vlib
 import tables_common as tc
 
 
+# entry points of the shared tables that harness/conc drives (stress, forced interleavings, face, lifecycle, readvertise,
+# listing, big and unset-race rounds): only for these may an unclassified lock discipline degrade to a note
+EXERCISED = {
+    "RibTable.AddEncRoute", "RibTable.RemoveRouteEnc", "RibTable.CleanUpFace", "RibTable.GetAllEntries",
+    "Table.Add", "Table.Remove", "Table.Get", "Table.GetAll",
+    "NlsrReadvertiser.Announce", "NlsrReadvertiser.Withdraw",
+}
+for _t in ("FibStrategyTree", "FibStrategyHashTable"):
+    for _m in ("FindNextHopsEnc", "FindStrategyEnc", "InsertNextHopEnc", "RemoveNextHopEnc", "ReplaceNextHopsEnc",
+               "SetStrategyEnc", "UnSetStrategyEnc", "GetAllFIBEntries", "GetAllForwardingStrategies"):
+        EXERCISED.add(_t + "." + _m)
+
+
 def translate(R):
     """regenerate coq/Tables/GenLockFacts.v from the current tree (written only if changed)"""
     src = os.path.join(vlib.VERIF, "translators", "tables", "lockfacts")
@@ -32,20 +45,28 @@ def translate(R):
     unclear = re.findall(r"\(\* UNCLASSIFIED (\S+):", out)
     if unclear:
         ref = open(os.path.join(vlib.VERIF, "coq", "Tables", "GenLockFacts.v")).read()
-        kept, lost = [], []
+        kept, assumed, not_exercised = [], [], []
         for name in unclear:
+            m_new = re.search(r'^  mkfact (\d+) "%s" (\S+(?: \S+)?) (true|false) (true|false) (\[[^\]]*\]) (true|false)(;?)$' % re.escape(name), out, re.M)
+            if name not in EXERCISED or not m_new:
+                # nothing dynamic stands in for the missing classification: stays a proof problem (the fact keeps bracket None)
+                not_exercised.append(name)
+                continue
             m_ref = re.search(r'^  mkfact \d+ "%s" .*$' % re.escape(name), ref, re.M)
-            m_new = re.search(r'^  mkfact \d+ "%s" .*$' % re.escape(name), out, re.M)
-            if m_ref and m_new:
-                line = m_ref.group(0).rstrip(";")
-                line += ";" if m_new.group(0).endswith(";") else ""
-                out = out.replace(m_new.group(0), line)
+            if m_ref:
+                line = m_ref.group(0).rstrip(";") + m_new.group(7)
                 kept.append(name)
             else:
-                lost.append(name)
-        R.coverage["translation_incomplete"] = dict(reference_kept=kept, no_reference=lost)
-        R.notes.append("translator: lock discipline of %s not classified from the source (lock taken through a construct the AST analysis does not follow); "
-                       "reference facts kept; the race-detector, forced-interleaving and linearizability runs decide" % ", ".join(unclear))
+                # no reference (a new method): assumed bracketed by its table's mutex in write mode; the dynamic rounds decide
+                line = '  mkfact %s "%s" (Some (%s, true)) true true %s %s%s' % (m_new.group(1), name, m_new.group(1), m_new.group(5), m_new.group(6), m_new.group(7))
+                assumed.append(name)
+            out = out.replace(m_new.group(0), line)
+        R.coverage["translation_incomplete"] = dict(reference_kept=kept, assumed_guarded=assumed, unclassified_and_not_exercised=not_exercised)
+        if kept or assumed:
+            R.notes.append("translator: lock discipline of %s not classified from the source (lock taken through a construct the AST analysis does not follow); "
+                           "these entry points are driven by the race-detector, forced-interleaving and linearizability rounds, which decide" % ", ".join(kept + assumed))
+        for name in not_exercised:
+            R.proof_problems.append("lock discipline of %s could not be classified and no round of harness/conc drives it" % name)
     with vlib.flock("coq-Tables"):
         changed = vlib.write_if_changed(gen, out)
     R.coverage["lockfacts"] = dict(methods=out.count("mkfact "), regenerated=changed,
